@@ -8,6 +8,7 @@ import (
 	"encoding/base32"
 	"errors"
 	"fmt"
+	"io"
 	"net"
 	"os"
 	"path/filepath"
@@ -285,6 +286,10 @@ func splitAt(cut int) func(*wire.Conn, int, int) []int {
 		return []int{avail}
 	}
 }
+
+var sessionPauses = []time.Duration{time.Second, 29 * time.Second, 2 * time.Second, 61 * time.Second, 10 * time.Minute, 25 * time.Hour}
+
+const pblk = 300
 
 func scenarios(cfg *mc.Config, emit func(mc.Scenario)) {
 	seed := cfg.Seed
@@ -677,7 +682,7 @@ func scenarios(cfg *mc.Config, emit func(mc.Scenario)) {
 		kind string
 		arg  int
 	}
-	for _, e := range []edgeT{{"exact-segment", 1}, {"exact-segment", 2}, {"exact-segment", 16}, {"exact-segment", 17}, {"close-with-data", 0}, {"close-with-data", 1}} {
+	for _, e := range []edgeT{{"exact-segment", 1}, {"exact-segment", 2}, {"exact-segment", 16}, {"exact-segment", 17}, {"close-with-data", 0}, {"close-with-data", 1}, {"paused-session", 0}, {"paused-session", 1}} {
 		e := e
 		emit(mc.Scenario{Name: fmt.Sprintf("edge/%s/%d", e.kind, e.arg), Weight: 20, Run: func(c *mc.Ctx) {
 			dir := freshDir("edge")
@@ -687,14 +692,17 @@ func scenarios(cfg *mc.Config, emit func(mc.Scenario)) {
 				fail(c, "startup", "startup/factory", "%v", err)
 				return
 			}
-			var inbound, got []byte
-			var dialErr, srvErr, rdErr error
-			finished := false
+			var inbound, outbound, got, srvGot []byte
+			var dialErr, srvErr, rdErr, wrErr error
+			finished, srvDone := false, false
+			pausedRound := 0
 			res := sched.Run(c, sched.Options{NoPreempt: true, NoEarlyTimers: true, Start: start, MaxSteps: 3_000_000}, func() {
 				s := sched.Cur()
 				cw, sw := wire.Pipe("client", "server")
 				if e.kind == "exact-segment" {
 					inbound = o4h.Pattern('I', 0, e.arg*1427)
+				} else if e.kind == "paused-session" {
+					inbound, outbound = o4h.Pattern('I', 0, pblk*len(sessionPauses)), o4h.Pattern('O', 0, pblk*len(sessionPauses))
 				} else {
 					inbound = o4h.Pattern('I', 0, 100+2*1427)
 				}
@@ -708,6 +716,23 @@ func scenarios(cfg *mc.Config, emit func(mc.Scenario)) {
 					if e.kind == "exact-segment" {
 						rs.Send(inbound, 0)
 						return // silence
+					}
+					if e.kind == "paused-session" {
+						// rounds of traffic in both directions separated by idle
+						// periods longer than every handshake timeout; arg 0: the
+						// client pauses before it writes, arg 1: the server pauses
+						// while the client waits in Read
+						defer func() { srvGot, srvDone = rs.Payload, true }()
+						for r := range sessionPauses {
+							if rs.RecvUntil((r+1)*pblk) != nil {
+								return
+							}
+							if e.arg == 1 {
+								sched.Sleep(sessionPauses[r])
+							}
+							rs.Send(inbound[r*pblk:(r+1)*pblk], 0)
+						}
+						return
 					}
 					rs.Send(inbound[:100], 7)
 					rs.Send(inbound[100:], 0)
@@ -724,6 +749,27 @@ func scenarios(cfg *mc.Config, emit func(mc.Scenario)) {
 				}
 				if e.kind == "close-with-data" {
 					cw.CoalesceEnd = true
+				}
+				if e.kind == "paused-session" {
+					rb := make([]byte, pblk)
+					for r := range sessionPauses {
+						if e.arg == 0 {
+							sched.Sleep(sessionPauses[r])
+						}
+						pausedRound = r
+						if _, wrErr = conn.Write(outbound[r*pblk : (r+1)*pblk]); wrErr != nil {
+							return
+						}
+						n, err := io.ReadFull(conn, rb)
+						got = append(got, rb[:n]...)
+						if err != nil {
+							rdErr = err
+							return
+						}
+					}
+					s.Point("server-done", func() bool { return srvDone })
+					finished = true
+					return
 				}
 				b := make([]byte, 4096)
 				for {
@@ -752,7 +798,22 @@ func scenarios(cfg *mc.Config, emit func(mc.Scenario)) {
 				fail(c, "stream", "edge/altered", "delivered bytes are not a prefix of what the server wrote")
 				return
 			}
-			if e.kind == "exact-segment" {
+			if e.kind == "paused-session" {
+				var sofar time.Duration
+				for r := 0; r <= pausedRound; r++ {
+					sofar += sessionPauses[r]
+				}
+				who := []string{"the client", "the server"}[e.arg]
+				if wrErr != nil {
+					fail(c, "stream", "edge/paused-session/write", "established connection, %s idle for %v (%v of pauses since the handshake): Write failed with %v", who, sessionPauses[pausedRound], sofar, wrErr)
+				} else if rdErr != nil {
+					fail(c, "stream", "edge/paused-session/read", "established connection, %s idle for %v (%v of pauses since the handshake): Read failed with %v", who, sessionPauses[pausedRound], sofar, rdErr)
+				} else if !finished || !bytes.Equal(got, inbound) {
+					fail(c, "stream", "edge/paused-session/inbound", "over a session with pauses the server wrote %d bytes, the client delivered %d (finished=%v, blocked %+v)", len(inbound), len(got), finished, res.Blocked)
+				} else if !bytes.Equal(srvGot, outbound) {
+					fail(c, "stream", "edge/paused-session/outbound", "over a session with pauses the client wrote %d bytes, the server decoded %d", len(outbound), len(srvGot))
+				}
+			} else if e.kind == "exact-segment" {
 				if !finished || len(got) != len(inbound) {
 					fail(c, "stream", "edge/exact-segment/stuck", "the server wrote %d bytes as exactly %d maximum packets (%d bytes on the wire) and went silent: the client delivered %d (read error %v; blocked %+v)", len(inbound), e.arg, e.arg*1448, len(got), rdErr, res.Blocked)
 				}
